@@ -269,9 +269,10 @@ func zzRefContentOK(ct byte, body []byte) (ok bool, known bool) {
 // type per its RFC layout; otherwise accepted with the header fields at their RFC offsets and a content
 // of the matching dynamic type. Accepted input re-encodes to a canonical form c with
 // Marshal(Unmarshal(c)) = c, and c is the input itself for every type with a single encoding.
-// (Handshake bodies are only required not to panic here.)
+// Records of type handshake(22) are excluded here (their bodies are judged by the handshake harnesses;
+// the dispatch to the handshake decoder is covered by zzRecordLayerRoundTrip).
 //
-//symgo:entry covers=rl_short,rl_bad_version,rl_bad_type,rl_bad_body,rl_ok_ccs,rl_ok_alert,rl_ok_app,rl_ok_ack,rl_ok_rrc,rl_hs_any
+//symgo:entry covers=rl_short,rl_bad_version,rl_bad_type,rl_bad_body,rl_ok_ccs,rl_ok_alert,rl_ok_app,rl_ok_ack,rl_ok_rrc
 func zzRecordLayerDecodeRef() {
 	ln := zzsymChoice("len", 13+zzsymParam("NRLBODY")+1)
 	data := zzsymBytes("d", ln)
@@ -282,6 +283,7 @@ func zzRecordLayerDecodeRef() {
 		return
 	}
 	zzsymAssume(int(zzBE16(data[11:])) == ln-13) // honest declared length; the dishonest case is zzRecordLayerDeclaredLen
+	zzsymAssume(data[0] != 22)                   // handshake bodies: handshake_*.go harnesses and C08
 	orig := append([]byte{}, data...)
 	err := r.Unmarshal(data)
 	if zzsymNot(zzsymAnd(data[1] == 254, zzsymOr(data[2] == 255, data[2] == 253))) {
@@ -292,7 +294,6 @@ func zzRecordLayerDecodeRef() {
 	ct := data[0]
 	ok, known := zzRefContentOK(ct, orig[13:])
 	if !known {
-		zzsymCover("rl_hs_any")
 		return
 	}
 	if !ok {
